@@ -69,7 +69,8 @@ BodiesOne    == {"k=v&x=%20 two {\"j\":[1,2]}"}
 Pc(raw, norm, class) == [raw |-> raw, norm |-> norm, class |-> class]
 Same(raw, class) == Pc(raw, raw, class)
 PlainSeg == Same("api", "unreserved")
-\* (an empty FIRST segment - a target that begins with "//" - is a class of its own, see SlashSlash below)
+\* an empty segment; as the FIRST segment the target begins with "//": still origin-form (RFC 7230: absolute-path =
+\* 1*( "/" segment )), a path - not a network-path reference naming a host
 EmptySeg == Same("", "unreserved")
 TargetPieces == {
     Pc("Products(1)", "Products%281%29", "sub-delims"),          \* ( ) - OData keys
@@ -95,13 +96,15 @@ TargetQueries == {
 Tg(segs, q) == [segs |-> segs, query |-> q]
 \* quick: every piece as the last and as an inner segment, every query form after a plain and after an encoded path
 TargetsQuick == {Tg(<<PlainSeg, p>>, NoQuery) : p \in TargetPieces}
-           \cup {Tg(<<p, PlainSeg>>, q) : p \in TargetPieces \ {EmptySeg}, q \in {[raw |-> "?", norm |-> "", class |-> "none"]}}
+           \cup {Tg(<<p, PlainSeg>>, q) : p \in TargetPieces, q \in {[raw |-> "?", norm |-> "", class |-> "none"]}}
+           \cup {Tg(<<EmptySeg, PlainSeg>>, NoQuery), Tg(<<EmptySeg, EmptySeg, PlainSeg>>, NoQuery),
+                 Tg(<<EmptySeg, Same("host.test:8080", "colon-at"), PlainSeg>>, [raw |-> "?x=1&y=%20z", norm |-> "?x=1&y=%20z", class |-> "pct-encoded"])}
            \cup {Tg(<<PlainSeg>>, q) : q \in TargetQueries}
            \cup {Tg(<<Pc("a%2Fb", "a/b", "pct-encoded"), Same("", "unreserved")>>, q) : q \in TargetQueries}
 \* thorough: + pieces x queries, pairs of pieces
 TargetsBig == TargetsQuick
            \cup {Tg(<<PlainSeg, p>>, q) : p \in TargetPieces, q \in TargetQueries}
-           \cup {Tg(<<p1, p2>>, NoQuery) : p1 \in TargetPieces \ {EmptySeg}, p2 \in TargetPieces}
+           \cup {Tg(<<p1, p2>>, NoQuery) : p1 \in TargetPieces, p2 \in TargetPieces}
 NoTargets == {}
 
 =============================================================================
